@@ -224,8 +224,12 @@ impl Scheduler {
         #[cfg(may_verif)]
         crate::verif::note("co.sched", crate::verif::co_vid(&co), thread_id);
         let global = unsafe { self.global_queues.get_unchecked(thread_id) };
+        #[cfg(may_verif)]
+        crate::verif::pt("sched.gpush", thread_id, 0, 0);
         global.push(co);
         // signal one waiting thread if any
+        #[cfg(may_verif)]
+        crate::verif::pt("sched.gwake", thread_id, 0, 0);
         self.get_selector().wakeup(thread_id);
     }
 
@@ -237,8 +241,12 @@ impl Scheduler {
         #[cfg(may_verif)]
         crate::verif::note("co.sched", crate::verif::co_vid(&co), thread_id);
         let global = unsafe { self.global_queues.get_unchecked(thread_id) };
+        #[cfg(may_verif)]
+        crate::verif::pt("sched.gpush", thread_id, 0, 0);
         global.push(co);
         // signal one waiting thread if any
+        #[cfg(may_verif)]
+        crate::verif::pt("sched.gwake", thread_id, 0, 0);
         self.get_selector().wakeup(thread_id);
     }
 
